@@ -213,17 +213,77 @@ impl Conn {
         self.take_messages()
     }
 
-    pub fn close(self) {
-        match self {
+    /// Closes the connection and waits for the server's side to be done with it: the client stops sending
+    /// (TCP: shutdown of the write half; WebSocket: close frame) and reads until the server closes the socket,
+    /// which it does after its end-of-connection code has run (3 s at most).
+    pub fn close(mut self) {
+        match &mut self {
             Conn::Tcp { s, .. } => {
-                let _ = s.shutdown(std::net::Shutdown::Both);
+                let _ = s.shutdown(std::net::Shutdown::Write);
             }
-            Conn::Ws { mut s, .. } => {
-                // close frame (masked, empty), then the socket
+            Conn::Ws { s, .. } => {
                 let _ = s.write_all(&[0x88, 0x80, 0x12, 0x34, 0x56, 0x78]);
+            }
+        }
+        let deadline = Instant::now() + Duration::from_millis(3000);
+        while Instant::now() < deadline {
+            if self.at_eof(Duration::from_millis(20)) {
+                break;
+            }
+        }
+        match self {
+            Conn::Tcp { s, .. } | Conn::Ws { s, .. } => {
                 let _ = s.shutdown(std::net::Shutdown::Both);
             }
         }
+    }
+
+    /// reads for at most `wait`; true when the server has closed the connection
+    fn at_eof(&mut self, wait: Duration) -> bool {
+        let (s, buf) = match self {
+            Conn::Tcp { s, buf } => (s, buf),
+            Conn::Ws { s, buf } => (s, buf),
+        };
+        let _ = s.set_read_timeout(Some(wait));
+        let mut tmp = [0u8; 4096];
+        match s.read(&mut tmp) {
+            Ok(0) => true,
+            Ok(n) => {
+                buf.extend_from_slice(&tmp[..n]);
+                false
+            }
+            Err(e) => !matches!(e.kind(), std::io::ErrorKind::WouldBlock | std::io::ErrorKind::TimedOut),
+        }
+    }
+
+    /// TCP only: a line the server answers with an error that travels through the session's channel behind
+    /// everything queued for this connection before: when the answer is here, every line pushed earlier is too.
+    pub fn barrier(&mut self, tag: &str) -> Vec<String> {
+        let mut out = vec![];
+        if self.send(&format!("zzbarrier{}", tag)).is_err() {
+            return out;
+        }
+        let deadline = Instant::now() + Duration::from_millis(3000);
+        loop {
+            let mut done = false;
+            for m in self.take_messages() {
+                if m.contains("zzbarrier") {
+                    if m.contains(&format!("zzbarrier{}", tag)) {
+                        done = true;
+                    }
+                    continue;
+                }
+                out.push(m);
+            }
+            if done || Instant::now() > deadline {
+                return out;
+            }
+            self.fill(Duration::from_millis(5));
+        }
+    }
+
+    pub fn is_tcp(&self) -> bool {
+        matches!(self, Conn::Tcp { .. })
     }
 }
 
